@@ -127,6 +127,20 @@ Definition dispatch_coder (fn : Z) (args : list (list Z)) : option (list (list Z
 Definition table_filter (tbl : list Z) (s : list Z) : bool :=
   match dna_to_number_int s with Ok v => negb (nth (Z.to_nat v) tbl 0 =? 0) | _ => false end.
 
+(* a history of remove_nasty_arc calls on the views handed back by the previous call, up to the first call that raises:
+   per returning call [accessor; latter map; [former; latter]; positive scores], then [1; code] of the raising call
+   (or [0] when all calls returned) *)
+Fixpoint removal_history (flags : list Z) (acc : accessor) (m : lmap) : list (list Z) :=
+  match flags with
+  | [] => [[0]]
+  | f :: rest =>
+      match remove_nasty_arc acc m (negb (f mod 2 =? 0)) (negb (f / 2 =? 0)) with
+      | Ok (acc', m', (u, v), sc) => [concat acc'; enc_lmap m'; [u; v]; sc] ++ removal_history rest acc' m'
+      | Raise e => [[1; exn_code e]]
+      | OutOfFuel => [[2]]
+      end
+  end.
+
 Definition dispatch_graph (fn : Z) (args : list (list Z)) : option (list (list Z)) :=
   match fn, args with
   | 30, [acc] => Some [[0]; obtain_vertices (chunk4 acc)]
@@ -175,6 +189,8 @@ Definition dispatch_graph (fn : Z) (args : list (list Z)) : option (list (list Z
          let whole := kmer_string kk v0 ++ s in
          Ok [[v0]; s; [b2z (valid c false s); b2z (valid c false whole)];
              map (fun i => b2z (valid c true (firstn kk (skipn i whole)))) (seq 0 (S (length s)))]))
+  | 53, [acc; flags] =>
+      let a := chunk4 acc in Some ([0] :: removal_history flags a (accessor_to_latter_map a))
   | 41, [h; ms; only_last; s] => Some [[0]; [b2z (valid (dec_cfg h ms) (boolarg only_last) s)]]
   | 42, [h; ms] => Some [[0]; [b2z (ctor_accepts (dec_cfg h ms))]]
   | 43, [k; h; ms] => Some (out_result (fun l => [l]) (find_vertices (natarg k) (valid (dec_cfg h ms) true)))
